@@ -417,7 +417,7 @@ impl Check for TreeProp {
         let deep = rng.chance(0.5);
         let o = GenOpts {
             planner: Some(kind),
-            families: if obstacle_free { vec!["open"] } else if deep { vec!["slivers", "slivers", "slivers", "balls", "thin_wall"] } else { vec!["open", "balls", "balls", "shell_door", "thin_wall"] },
+            families: if obstacle_free { vec!["open"] } else if deep { vec!["slivers", "slivers", "slivers", "balls", "thin_wall", "zero_weight"] } else { vec!["open", "balls", "balls", "shell_door", "thin_wall", "zero_weight"] },
             max_iters: if deep { self.depth(tier) * 6 } else { self.depth(tier) },
             min_frac: 0.01,
             goal_sampler: Some(GoalSampler::Fixed),
@@ -458,12 +458,12 @@ impl Check for TreeProp {
             // API history: solve, solve again, re-setup with another problem, solve — the final
             // trees are checked in full
             let mut geo = geo_for(&scn.space).unwrap();
-            let fam = *rng.pick(&["goal_overlap", "goal_overlap", "balls", "goal_invalid"]);
+            let fam = *rng.pick(&["goal_overlap", "goal_overlap", "balls", "goal_invalid", "zero_weight"]);
             let wb = gen::build_world(&mut geo, &mut rng, ext, fam);
             scn.worlds.push(wb.world);
             scn.problems.push(ProblemSpec {
                 starts: vec![wb.start],
-                goal: GoalSpec { target: wb.target, radius: wb.goal_radius * rng.range(1.0, 2.5), sampler: GoalSampler::Harness, sampler_seed: rng.u64() % 1_000_000 },
+                goal: GoalSpec { target: wb.target, radius: wb.goal_radius * rng.range(1.0, 2.5), sampler: GoalSampler::Harness, sampler_seed: rng.u64() % 1_000_000, comp: wb.goal_comp },
                 world: 1,
             });
             scn.problems[0].goal.sampler = GoalSampler::Harness;
@@ -820,6 +820,18 @@ impl TreeProp {
                 if !(0..=1).contains(&da) || !(0..=1).contains(&db) {
                     return Err(viol("C16", sig("more_than_one_node"), format!("iteration {it}: start tree grew by {da}, goal tree by {db}")));
                 }
+                // the goal-root redraw (the planner found its unvalidated goal root invalid and
+                // drew another goal sample instead of planning): not an extension attempt
+                let prev_seam = px.last.log[..lo].iter().rev().find(|e| e.phase().is_some());
+                if let Some(Ev::Valid(s, false)) = prev_seam {
+                    if b0.len() == 1 && bits_eq(s, &b0[0].0) && matches!(evs.first(), Some(Ev::SG(_))) {
+                        rep.probe("goal_root_redrawn");
+                        if da != 0 || db != 0 {
+                            return Err(viol("C16", sig("grew_during_root_redraw"), format!("iteration {it}: a tree grew while the goal root was being redrawn")));
+                        }
+                        return Ok(());
+                    }
+                }
                 let start_first = a0.len() <= b0.len();
                 let (ta0, ta1, tb0, tb1, dga, dgb) = if start_first { (&a0, &a1, &b0, &b1, da, db) } else { (&b0, &b1, &a0, &a1, db, da) };
                 if dga == 0 && dgb == 1 {
@@ -837,6 +849,9 @@ impl TreeProp {
                     let (k, why) = e.split_once("::").unwrap();
                     return Err(viol("C16", sig(k), format!("iteration {it} (tree grown first): {why}")));
                 }
+                if !g.valid(cx.w, &na.0) {
+                    return Err(viol("C16", sig("added_although_endpoint_invalid"), format!("iteration {it}: node {} was added although the checker rejects it (the motion to it is invalid)", fmt_state(&na.0))));
+                }
                 if let Some((gap, _)) = cx.ev.coverage_gap(&acc_iter, &ta0[na.1.unwrap()].0, &na.0) {
                     return Err(viol("C16", sig("added_without_validation"), format!("iteration {it}: the new edge has an unvalidated stretch of {gap}")));
                 }
@@ -846,6 +861,9 @@ impl TreeProp {
                     if let Err(e) = cx.steer_ok(tb0, &na.0, &nb.0, nb.1) {
                         let (k, why) = e.split_once("::").unwrap();
                         return Err(viol("C16", sig(&format!("connect_{k}")), format!("iteration {it} (connect step toward the new node): {why}")));
+                    }
+                    if !g.valid(cx.w, &nb.0) {
+                        return Err(viol("C16", sig("added_although_endpoint_invalid"), format!("iteration {it}: connect node {} was added although the checker rejects it", fmt_state(&nb.0))));
                     }
                     if let Some((gap, _)) = cx.ev.coverage_gap(&acc_iter, &tb0[nb.1.unwrap()].0, &nb.0) {
                         return Err(viol("C16", sig("added_without_validation"), format!("iteration {it}: the connect edge has an unvalidated stretch of {gap}")));
@@ -881,10 +899,13 @@ impl TreeProp {
                 if let Some((gap, _)) = cx.ev.coverage_gap(&acc_iter, &t0[near].0, &nn.0) {
                     return Err(viol("C16", sig("added_without_validation"), format!("iteration {it}: a node was added although the motion from the nearest node was not validated (unvalidated stretch {gap})")));
                 }
+                // a motion whose end point the checker rejects is an invalid motion
+                if !g.valid(cx.w, &nn.0) {
+                    return Err(viol("C16", sig("added_although_endpoint_invalid"), format!("iteration {it}: node {} was added although the checker rejects it (the motion to it is invalid)", fmt_state(&nn.0))));
+                }
                 if matches!(px.snaps[i], Snap::Tree(_)) && evs.iter().any(|e| matches!(e, Ev::Valid(_, false))) {
                     return Err(viol("C16", sig("added_despite_rejection"), format!("iteration {it}: a node was added although the checker rejected a state of the motion")));
                 }
-                let _ = g;
                 Ok(())
             }
         }
